@@ -38,6 +38,8 @@ def select(ctx, cases):
                 ess.append(c)                       # every terminating signal on the rotated runner
             elif not none and c["runner"] == rot and ((k == "exit" and n in (0, 1)) or (k in ("raise", "fault") and n == 11)):
                 ess.append(c)                       # every child behaviour on the rotated runner
+            elif c["child"].startswith("orphan") and ((k == "exit" and n in (0, 1)) or (k == "raise" and n == 11)):
+                ess.append(c)                       # re-parented descendants that end first: every runner mode
             else:
                 rest.append(c)
         else:
